@@ -260,7 +260,7 @@ package atree
 //@   ensures[C06] err == nil ==> wfMM0(m) && m.header.slabID == old(m.header.slabID)
 //@   ensures[C09] err == nil ==> sto[m.header.slabID] == m && mDistinct(m)
 //@   ensures[C09] err == nil ==> mAgree(m)
-//@   ensures[C05] err == nil ==> (forall i :: 0 <= i && i < len(m.childrenHeaders) ==> mhdrBand(m.childrenHeaders[i]))
+//@   ensures[C02 C05] err == nil ==> (forall i :: 0 <= i && i < len(m.childrenHeaders) ==> mhdrBand(m.childrenHeaders[i]))
 //@   ensures[C02 C03 C08] err == nil ==> has(stored, m)
 //@   ensures[C18] err != nil ==> categorised(err) || true
 //@   modifies MapMetaDataSlab.childrenHeaders@inSub(m), MapMetaDataSlab.header@inSub(m), MapDataSlab.*@inSub(m),
@@ -281,7 +281,7 @@ package atree
 //@   ensures[C06] err == nil ==> wfMM0(m) && m.header.slabID == old(m.header.slabID)
 //@   ensures[C09] err == nil ==> sto[m.header.slabID] == m && mDistinct(m)
 //@   ensures[C09] err == nil ==> mAgree(m)
-//@   ensures[C05] err == nil ==> (forall i :: 0 <= i && i < len(m.childrenHeaders) ==> mhdrBand(m.childrenHeaders[i]))
+//@   ensures[C02 C05] err == nil ==> (forall i :: 0 <= i && i < len(m.childrenHeaders) ==> mhdrBand(m.childrenHeaders[i]))
 //@   ensures[C02 C03 C08] err == nil ==> has(stored, m)
 //@   modifies MapMetaDataSlab.childrenHeaders@inSub(m), MapMetaDataSlab.header@inSub(m), MapDataSlab.*@inSub(m),
 //@        hkeyElements.*@inSub(m), singleElements.*@inSub(m), singleElement.*@inSub(m), inlineCollisionGroup.*@inSub(m), externalCollisionGroup.*@inSub(m),
